@@ -80,7 +80,7 @@ theorem inv3_step (fuel : Nat) (h : Inv3 N scale F flow size cfg d1 L arrivals s
 
 theorem inv3_init (hc : CfgOK F cfg) (hg : GridOK scale size F cfg d1 L arrivals) (hw : WorkOK N size F flow cfg d1 arrivals) :
     Inv3 N scale F flow size cfg d1 L arrivals (initState F arrivals) (a0 arrivals) := by
-  obtain ⟨-, h2, h3⟩ := kinv_init (N := N) (scale := scale) hc arrivals
+  obtain ⟨-, h2, h3⟩ := kinv_init (N := N) (scale := scale) (size := size) hc arrivals
   refine ⟨inv_init hc hg hw, ⟨oInit, ?_, ?_⟩, ?_⟩
   · rw [h3]; rfl
   · rw [h2]; exact oinv_init arrivals
